@@ -5,6 +5,7 @@
 package rtp
 
 import (
+	"errors"
 	"time"
 
 	"github.com/cnotch/ipchub/av/codec"
@@ -86,17 +87,23 @@ func (h265dp *h265Depacketizer) depacketizeStap(packet *Packet) (err error) {
 	// 循环读取被封装的NAL
 	for {
 		// nal长度
+		if off+2 > len(payload) {
+			return errors.New("AP: truncated NAL size field")
+		}
 		nalSize := ((uint16(payload[off])) << 8) | uint16(payload[off+1])
 		if nalSize < 1 {
 			return
 		}
 
 		off += 2
+		if off+int(nalSize) > len(payload) {
+			return errors.New("AP: NAL size exceeds the payload")
+		}
 		frame := &codec.Frame{
 			MediaType: codec.MediaTypeVideo,
 			Payload:   make([]byte, nalSize),
 		}
-		copy(frame.Payload, payload[off:])
+		copy(frame.Payload, payload[off:off+int(nalSize)])
 		if err = h265dp.writeFrame(packet.Timestamp, frame); err != nil {
 			return
 		}
